@@ -174,7 +174,7 @@ Module Perf.
   | FSetLength (n : Z) (from_left : bool)
   | FTruncate (k : Z)
   | FDeepcopy
-  | FReinit (s0 m : Z).     (* a fresh, empty performance *)
+  | FReinit (s0 m nvb : Z). (* Performance(start_step=s0, max_shift_steps=m, num_velocity_bins=nvb) *)
 
   Definition step (s : st) (o : op) : st * outcome :=
     match o with
@@ -182,7 +182,9 @@ Module Perf.
     | FSetLength n fl => set_length s n fl
     | FTruncate k => (truncate s k, Done)
     | FDeepcopy => (s, Done)
-    | FReinit s0 m => (mk [] s0 m, Done)
+    | FReinit s0 m nvb =>
+        (* BasePerformance.__init__: ValueError if num_velocity_bins exceeds the number of MIDI velocities *)
+        if MAX_NUM_VELOCITY_BINS <? nvb then (s, ValueError) else (mk [] s0 m, Done)
     end.
 
   Definition run_ops (s : st) (ops : list op) : st :=
